@@ -16,12 +16,12 @@
    The _partial theorems are the full refinement statement for a container ANYWHERE in a well-formed forest driven by calls
    with plain Python arguments.  What they leave to the correspondence (model vs pg.List / pg.Dict on generated histories,
    every step): arguments that are existing symbolic nodes (adopted or copied at write time -- Python would alias), opaque
-   objects as written values, rebind with several / multi-key paths, d | m and m | d. *)
+   objects as written values, rebind with several / multi-key paths. *)
 From Coq Require Import ZArith NArith List Bool.
 From PG Require Import Common.Tactics Model.SymCoreDefs Model.SymCoreOps Model.SymCoreSpec Model.SymCoreC02
      Proofs.SymCoreWF Proofs.SymCoreIds Proofs.SymCoreC02Base Proofs.SymCoreC02Read Proofs.SymCoreC02Frame Proofs.SymCoreC02Prim
      Proofs.SymCoreC02List Proofs.SymCoreC02Items Proofs.SymCoreC02Dict Proofs.SymCoreC02Step Proofs.SymCoreC02Ext Proofs.PyListFacts
-     Proofs.SymCoreC02Slice Proofs.SymCoreC02WF Proofs.SymCoreC02Examples Proofs.SymCoreC02Summary Proofs.SymCoreC02Init.
+     Proofs.SymCoreC02Slice Proofs.SymCoreC02WF Proofs.SymCoreC02Or Proofs.SymCoreC02Examples Proofs.SymCoreC02Summary Proofs.SymCoreC02Init.
 From PG Require Model.PyList Model.PyDict.
 Import ListNotations.
 Local Open Scope Z_scope.
@@ -79,6 +79,18 @@ Theorem C02_refines_python_slices_partial : forall q ps tid pa fl st its sc x lo
     out_class (snd (step2 q st (Ext sc ps x))) (py_lstep (evals its) lo).
 Proof. exact step_x_list_refines. Qed.
 Print Assumptions C02_refines_python_slices_partial.
+
+(* d | m and m | d with a plain dict m: a new root pg.Dict whose erased items are Python's merged dict (operand first /
+   last, later values win, keys keep their first position); the operand is untouched; never an error *)
+Theorem C02_refines_python_or_partial : forall q sc ps tid pa fl, no_quirks q -> forall st its x o st' out,
+  WFI st -> at_is st ps tid KDict pa fl its -> clean its -> anc_clean st ps -> plain_xdop x -> xdop_of x = Some o ->
+  exec_x q sc st ps fl its x = (st', out) ->
+  match py_dstep (eitems its) o with
+  | inr e => False
+  | inl (d', ret) => dwrote st ps tid pa fl st' d' /\ dret_agrees st' out ret /\ WFI st'
+  end.
+Proof. exact exec_x_or_refines. Qed.
+Print Assumptions C02_refines_python_or_partial.
 
 (* --- C02_history: every finite history on one container ---------------------------------------------------------------------- *)
 (* lists: base catalogue and slice operations interleaved in any order; [lhist2_ok] only says that every call has plain
